@@ -135,7 +135,7 @@ Definition spec_csum (name : list N) : N :=
   fold_left (fun s c => ((s mod 2) * 128 + s / 2 + c) mod 256) name 0.
 
 (* the later slots of a run: not flagged start, numbered k, k-1, ..., 1 *)
-Fixpoint run_tail (k : nat) (r : list (list N)) : Prop :=
+Fixpoint run_tail (k : nat) (r : list (list N)) {struct r} : Prop :=
   match r with
   | [] => k = O
   | d :: r' => slot_is_lfn d /\ ~ slot_start d /\ slot_seq d = N.of_nat k /\
